@@ -38,6 +38,7 @@ GROUPS = {
     'core': dict(crate='minijinja', features=BASE_FEATURES),
     'debug': dict(crate='minijinja', features=BASE_FEATURES + ',debug'),
     'syntax': dict(crate='minijinja', features=BASE_FEATURES + ',custom_syntax'),
+    # the dependency minijinja is compiled with cfg(kani) too, so its harness files need the same features
     'autoreload': dict(crate='minijinja-autoreload', features=''),
 }
 MEM_LIMIT = int(os.environ.get('VERIF_MEM_GB', '9')) << 30
@@ -693,9 +694,27 @@ def write_ev(prop, tier, seed, results, samples, xcheck, build_s, wall, violatio
                     '/repo\'s working tree; every verdict is for ALL values of the symbolic inputs inside the '
                     'stated unwind/size bounds, nothing outside them.',
     )
-    cov.update({k: v.get('coverage', {}) for k, v in extra_ev.items()})
-    ev = dict(property_id=prop, tier=tier, seed=seed, level='model_checking', coverage=cov,
-              assumptions=ASSUMPTIONS, wall_s=round(wall, 1), violations=len(violations))
+    level = 'model_checking'
+    assumptions = list(ASSUMPTIONS)
+    if 'B' in extra_ev:
+        # engine B decides this property: its keys are the level's own keys; the Kani part (if any) is kept beside
+        level = 'translation_validation'
+        bcov = dict(extra_ev['B'].get('coverage', {}))
+        kcov = cov
+        cov = bcov
+        cov['kani_kernels'] = dict(harnesses=kcov['harnesses'], harnesses_run=kcov['harnesses_run'],
+                                   harnesses_passed=kcov['harnesses_passed'], solver_s=kcov['solver_s'])
+        cov['known_findings_reproduced'] = [kf['id'] for _, kf in known_hits]
+        cov['inconclusive'] = problems
+        cov['exhaustive'] = False
+        cov['explanation'] = ('the instruction streams emitted by the real compiler for a generated program family are '
+                              'validated with z3 against the property (see family); solver counterexamples are replayed on the real engine')
+        assumptions = ['the dump tool links the real lexer/parser/code generator of /repo (unstable_machinery_serde)',
+                       'VM effects per instruction as extracted from vm/mod.rs on this run; operand arities from the hand-written table in bytecode/encoder.py',
+                       'programs outside the generated family are not covered',
+                       'native replay contexts: a fixed family of 14 contexts over the variables the generator uses']
+    ev = dict(property_id=prop, tier=tier, seed=seed, level=level, coverage=cov,
+              assumptions=assumptions, wall_s=round(wall, 1), violations=len(violations))
     json.dump(ev, open(os.path.join(ROOT, 'evidence', prop + '.json'), 'w'), indent=1)
 
 
